@@ -3,6 +3,12 @@
    the runner is [oracle], a question/answer call-back answered by the Go standard library. *)
 From FDO Require Export Run.Sexp Rv.RvImpl Cose.Sign1 Kex.Crypter Kex.Kdf Svi.Chunk Cbor.RoundTripCheck Fdo.Voucher.
 From FDO Require Fdo.Server.
+From FDO Require Import Fdo.Device.
+From FDO Require Store.Store.
+From FDO Require Kex.Valid.
+From FDO Require Fdo.Handover.
+From FDO Require Fsim.Transfer.
+From FDO Require Svi.Devmod Svi.Modules.
 Local Open Scope N_scope.
 
 Definition unhexnum (b : bytes) : option N :=
@@ -428,6 +434,277 @@ Section Dispatch.
       end
     else None.
 
+
+  (* ---- device side of TO2: dev.verifyowner secret kalg kval hello nonce kexok (t61 b61) ((t b) ...) (to1d?) ---- *)
+  Fixpoint msgs_of_args (l : list arg) : option (list (N * bytes)) :=
+    match l with
+    | [] => Some []
+    | AL [AN t; AB b] :: r => match msgs_of_args r with Some xs => Some ((t, b) :: xs) | None => None end
+    | _ => None
+    end.
+  Definition run_device (kind : bytes) (args : list arg) : option bytes :=
+    if bytes_eqb kind (s "dev.verifyowner"%bs) then
+      match args with
+      | [AB secret; AZ kalg; AB kval; AB hello; AB nonce; AN kexok; AL [AN t61; AB b61]; AL resps; AL t1] =>
+        match msgs_of_args resps, (match t1 with [] => Some None | [AB tb] => Some (Some tb) | _ => None end) with
+        | Some rs, Some to1d =>
+          match verify_owner O_der O_rfc3339 O_verify O_hash O_hmac O_pubkey
+                  (mkdev secret kalg kval hello nonce (negb (kexok =? 0)%N)) (t61, b61) rs to1d with
+          | Proceed _ _ => Some (s "accept"%bs)
+          | Abort => Some (s "abort"%bs)
+          end
+        | _, _ => Some bad_args
+        end
+      | _ => Some bad_args
+      end
+    else None.
+
+
+  (* ---- state store: store.history (op ...) ---- *)
+  Definition tok_of (z : Z) : Store.tok := if (z <? 0)%Z then Store.TBad else Store.TId (Z.to_nat z).
+  Definition op_of_arg (a : arg) : option Store.op :=
+    match a with
+    | AL [AS k; AN p] => if bytes_eqb k (s "new"%bs) then Some (Store.ONew p) else None
+    | AL [AS k; AZ t; AN f; AB v] => if bytes_eqb k (s "set"%bs) then Some (Store.OSet (tok_of t) f v) else None
+    | AL [AS k; AZ t; AN f] => if bytes_eqb k (s "get"%bs) then Some (Store.OGet (tok_of t) f) else None
+    | AL [AS k; AZ t] => if bytes_eqb k (s "inval"%bs) then Some (Store.OInval (tok_of t)) else None
+    | AL [AS k; AB g; AB v] => if bytes_eqb k (s "addv"%bs) then Some (Store.OAddV g v) else None
+    | AL [AS k; AB g; AB g'; AB v] => if bytes_eqb k (s "replv"%bs) then Some (Store.OReplV g g' v) else None
+    | AL [AS k; AB g] => if bytes_eqb k (s "remv"%bs) then Some (Store.ORemV g)
+                         else if bytes_eqb k (s "getv"%bs) then Some (Store.OGetV g) else None
+    | AL [AS k; AB g; AB b; AZ e] => if bytes_eqb k (s "setblob"%bs) then Some (Store.OSetBlob g b e) else None
+    | AL [AS k; AB g; AZ now] => if bytes_eqb k (s "getblob"%bs) then Some (Store.OGetBlob g now) else None
+    | AL [AS k] => if bytes_eqb k (s "restart"%bs) then Some Store.ORestart else None
+    | _ => None
+    end.
+  Fixpoint ops_of_args (l : list arg) : option (list Store.op) :=
+    match l with
+    | [] => Some []
+    | a :: r => match op_of_arg a, ops_of_args r with Some x, Some xs => Some (x :: xs) | _, _ => None end
+    end.
+  Definition render_res (r : Store.res) : bytes :=
+    match r with
+    | Store.RTok n => s " t"%bs ++ hexnum (N.of_nat n)
+    | Store.ROk => s " ok"%bs
+    | Store.RVal v => s " v:"%bs ++ hex v
+    | Store.RNotFound => s " nf"%bs
+    | Store.RInvalid => s " inv"%bs
+    | Store.RErr => s " err"%bs
+    end.
+  Definition run_store (kind : bytes) (args : list arg) : option bytes :=
+    if bytes_eqb kind (s "store.history"%bs) then
+      match args with
+      | [AL ops] => match ops_of_args ops with
+                    | Some os => Some (s "ok"%bs ++ concat (map render_res (snd (Store.run Store.empty os))))
+                    | None => Some bad_args
+                    end
+      | _ => Some bad_args
+      end
+    else None.
+
+
+  (* ---- key-exchange validity: kex.valid n:dev n:owner n:suite ; kex.available n:suite z:cipher ---- *)
+  Definition dev_of (n : N) : Valid.devkey := match n with 0 => Valid.DevP256 | 1 => Valid.DevP384 | 2 => Valid.DevRSA | _ => Valid.DevOther end%N.
+  Definition own_of (n : N) : Valid.ownkey :=
+    match n with 0 => Valid.OwnP256 | 1 => Valid.OwnP384 | 2 => Valid.OwnRSA2048 | 3 => Valid.OwnRSA3072 | _ => Valid.OwnOther end%N.
+  Definition suite_of (n : N) : Valid.suite :=
+    match n with 0 => Valid.DHKEXid14 | 1 => Valid.DHKEXid15 | 2 => Valid.ASYMKEX2048 | 3 => Valid.ASYMKEX3072
+              | 4 => Valid.ECDH256 | 5 => Valid.ECDH384 | _ => Valid.SuiteOther end%N.
+  Definition run_valid (kind : bytes) (args : list arg) : option bytes :=
+    if bytes_eqb kind (s "kex.valid"%bs) then
+      match args with
+      | [AN d; AN o; AN su] => Some (render_bool (Valid.suite_valid (dev_of d) (own_of o) (suite_of su)))
+      | _ => Some bad_args
+      end
+    else if bytes_eqb kind (s "kex.available"%bs) then
+      match args with
+      | [AN su; AZ c] => Some (render_bool (Valid.available (suite_of su) c))
+      | _ => Some bad_args
+      end
+    else None.
+
+
+  (* ---- ownership handover: handover.adopt b:secret n:devsize n:ownsize b:header ; handover.replace b:stored-header b:guid b:rvinfo b:ownerkey ---- *)
+  Definition render_cred (c : Handover.cred) : bytes :=
+    hexnumZ (Handover.c_version c) ++ s ":"%bs ++ hex (Handover.c_devinfo c) ++ s ":"%bs ++ hex (Handover.c_guid c) ++ s ":"%bs ++
+    (match enc enc_fuel Voucher.ty_rvinfo (Handover.c_rvinfo c) with Ok b => hex b | _ => s "?"%bs end) ++ s ":"%bs ++
+    hexnumZ (Handover.c_kalg c) ++ s ":"%bs ++ hex (Handover.c_kval c).
+  Definition run_handover (kind : bytes) (args : list arg) : option bytes :=
+    if bytes_eqb kind (s "handover.adopt"%bs) then
+      match args with
+      | [AB secret; AN dsz; AN osz; AB hb] =>
+        match Handover.hash_alg_for (Z.of_N dsz) (Z.of_N osz), munmarshal Voucher.ty_header hb with
+        | Some alg, Ok hdr =>
+          match Handover.device_adopts O_hash O_hmac secret alg hdr with
+          | Ok (VList [VInt ha; VBytes hv], c) =>
+            Some (s "ok hmac="%bs ++ hexnumZ ha ++ s ":"%bs ++ hex hv ++ s " cred="%bs ++ render_cred c)
+          | _ => Some (s "err"%bs)
+          end
+        | _, _ => Some (s "err"%bs)
+        end
+      | _ => Some bad_args
+      end
+    else if bytes_eqb kind (s "handover.replace"%bs) then
+      match args with
+      | [AB hb; AB guid; AB rvb; AB kb] =>
+        match munmarshal Voucher.ty_header hb, munmarshal Voucher.ty_rvinfo rvb, munmarshal Voucher.ty_pubkey kb with
+        | Ok hdr, Ok rv, Ok k =>
+          match Handover.owner_replacement hdr guid rv k with
+          | Some hdr' => match enc enc_fuel Voucher.ty_header hdr' with Ok b => Some (s "ok b:"%bs ++ hex b) | _ => Some (s "err"%bs) end
+          | None => Some (s "err"%bs)
+          end
+        | _, _, _ => Some (s "err"%bs)
+        end
+      | _ => Some bad_args
+      end
+    else None.
+
+
+  (* ---- file transfer modules: fsim.download (msg ...) ; fsim.upload (msg|tick ...) ; fsim.wget b:name b:sha (b:body)? ---- *)
+  Definition sha384o (m : bytes) : bytes := O_hash 384 m.
+  Definition rmsg_of_arg (a : arg) : option Transfer.rmsg :=
+    match a with
+    | AL [AS k; AB n] => if bytes_eqb k (s "name"%bs) then Some (Transfer.MName n)
+                         else if bytes_eqb k (s "sha"%bs) then Some (Transfer.MSha n) else None
+    | AL [AS k; AZ l] => if bytes_eqb k (s "length"%bs) then Some (Transfer.MLength l) else None
+    | AL [AS k; AL cs; AN bad] =>
+      if bytes_eqb k (s "data"%bs) then option_map (fun l => Transfer.MData l (negb (bad =? 0)%N)) (args_bytes cs) else None
+    | AL [AS k] => if bytes_eqb k (s "unknown"%bs) then Some Transfer.MUnknown else None
+    | _ => None
+    end.
+  Definition render_reply (r : option Transfer.reply) : bytes :=
+    match r with
+    | None => s "-"%bs
+    | Some (Transfer.RDone n) => s "done:"%bs ++ hexnumZ n
+    | Some Transfer.RFail => s "fail"%bs
+    | Some Transfer.RError => s "error"%bs
+    end.
+  Definition render_file (f : option (bytes * bytes)) : bytes :=
+    match f with
+    | None => []
+    | Some (n, c) => s "+file:"%bs ++ hex n ++ s ":"%bs ++ hexnum (N.of_nat (length c)) ++ s ":"%bs ++ hex (sha384o c)
+    end.
+  Fixpoint rmsgs_of_args (l : list arg) : option (list Transfer.rmsg) :=
+    match l with
+    | [] => Some []
+    | a :: r => match rmsg_of_arg a, rmsgs_of_args r with Some x, Some xs => Some (x :: xs) | _, _ => None end
+    end.
+  Definition umsg_of_arg (a : arg) : option Transfer.umsg :=
+    match a with
+    | AL [AS k] => if bytes_eqb k (s "tick"%bs) then Some Transfer.UTick else option_map Transfer.UMsg (rmsg_of_arg a)
+    | _ => option_map Transfer.UMsg (rmsg_of_arg a)
+    end.
+  Fixpoint umsgs_of_args (l : list arg) : option (list Transfer.umsg) :=
+    match l with
+    | [] => Some []
+    | a :: r => match umsg_of_arg a, umsgs_of_args r with Some x, Some xs => Some (x :: xs) | _, _ => None end
+    end.
+  Definition run_fsim (kind : bytes) (args : list arg) : option bytes :=
+    if bytes_eqb kind (s "fsim.download"%bs) then
+      match args with
+      | [AL ms] => match rmsgs_of_args ms with
+                   | Some l => Some (s "ok"%bs ++ concat (map (fun x => sp ++ render_reply (fst x) ++ render_file (snd x))
+                                                               (snd (Transfer.dl_run sha384o Transfer.r0 l))))
+                   | None => Some bad_args
+                   end
+      | _ => Some bad_args
+      end
+    else if bytes_eqb kind (s "fsim.upload"%bs) then
+      match args with
+      | [AL ms] => match umsgs_of_args ms with
+                   | Some l => Some (s "ok"%bs ++ concat (map (fun x => sp ++ match x with
+                                                                               | None => s "-"%bs
+                                                                               | Some (inl _) => s "error"%bs
+                                                                               | Some (inr c) => s "file:"%bs ++ hexnum (N.of_nat (length c)) ++ s ":"%bs ++ hex (sha384o c)
+                                                                               end)
+                                                               (snd (Transfer.ul_run sha384o Transfer.u0 l))))
+                   | None => Some bad_args
+                   end
+      | _ => Some bad_args
+      end
+    else if bytes_eqb kind (s "fsim.wget"%bs) then
+      match args with
+      | [AB name; AB sha; AL body] =>
+        match (match body with [] => Some None | [AB b] => Some (Some b) | _ => None end) with
+        | Some ob => Some (match Transfer.wget_result sha384o name sha ob with
+                           | None => s "none"%bs
+                           | Some (n, c) => s "file:"%bs ++ hex n ++ s ":"%bs ++ hexnum (N.of_nat (length c)) ++ s ":"%bs ++ hex (sha384o c)
+                           end)
+        | None => Some bad_args
+        end
+      | _ => Some bad_args
+      end
+    else None.
+
+
+  (* ---- devmod module list and owner module sequencing ---- *)
+  Fixpoint nats_of_args (l : list arg) : option (list nat) :=
+    match l with
+    | [] => Some []
+    | AN n :: r => option_map (cons (N.to_nat n)) (nats_of_args r)
+    | _ => None
+    end.
+  Definition render_names (l : list bytes) : bytes := concat (map (fun n => s " b:"%bs ++ hex n) l).
+  Fixpoint chunks_of_args (l : list arg) : option (list (nat * nat * list bytes)) :=
+    match l with
+    | [] => Some []
+    | AL (AN st :: AN ln :: names) :: r =>
+      match args_bytes names, chunks_of_args r with
+      | Some ns, Some cs => Some ((N.to_nat st, N.to_nat ln, ns) :: cs)
+      | _, _ => None
+      end
+    | _ => None
+    end.
+  Fixpoint collect_raw (mods : list bytes) (cs : list (nat * nat * list bytes)) : option (list bytes) :=
+    match cs with
+    | [] => Some mods
+    | (st, ln, names) :: r => match Devmod.collect_chunk mods st ln names with Some m => collect_raw m r | None => None end
+    end.
+  Definition run_devmod (kind : bytes) (args : list arg) : option bytes :=
+    if bytes_eqb kind (s "devmod.split"%bs) then
+      match args with
+      | [AN mtu; AL names] =>
+        match args_bytes names with
+        | Some ns =>
+          match Devmod.split (Devmod.fits_mtu (N.to_nat mtu)) ns with
+          | Some cs => Some (s "ok"%bs ++ concat (map (fun c : nat * list bytes =>
+                               s " ("%bs ++ hexnum (N.of_nat (fst c)) ++ render_names (snd c) ++ s ")"%bs) cs))
+          | None => Some (s "err"%bs)
+          end
+        | None => Some bad_args
+        end
+      | _ => Some bad_args
+      end
+    else if bytes_eqb kind (s "devmod.collect"%bs) then
+      match args with
+      | [AN num; AL cs] =>
+        match chunks_of_args cs with
+        | Some l =>
+          match collect_raw (repeat [] (N.to_nat num)) l with
+          | Some mods => Some (s "ok "%bs ++ render_bool (Devmod.complete mods) ++ render_names mods)
+          | None => Some (s "err"%bs)
+          end
+        | None => Some bad_args
+        end
+      | _ => Some bad_args
+      end
+    else if bytes_eqb kind (s "svc.sequence"%bs) then
+      match args with
+      | [AL plan; AL flags] =>
+        match nats_of_args plan, nats_of_args flags with
+        | Some p, Some f =>
+          Some (s "ok"%bs ++ concat (map (fun r => match r with
+                                                   | Modules.ONothing => s " -"%bs
+                                                   | Modules.OProduced m d => s " p"%bs ++ hexnum (N.of_nat m) ++ s ":"%bs ++ render_bool d
+                                                   | Modules.OError => s " err"%bs
+                                                   end)
+                                          (snd (Modules.orun (Modules.start p) (map (fun x => negb (Nat.eqb x 0)) f)))))
+        | _, _ => Some bad_args
+        end
+      | _ => Some bad_args
+      end
+    else None.
+
   Definition dispatch (kind : bytes) (args : list arg) : bytes :=
     match run_cbor kind args with
     | Some r => r
@@ -449,7 +726,25 @@ Section Dispatch.
               | None =>
                 match run_voucher kind args with
                 | Some r => r
-                | None => match run_server kind args with Some r => r | None => s "unknown-kind"%bs end
+                | None => match run_server kind args with
+                          | Some r => r
+                          | None => match run_device kind args with
+                                    | Some r => r
+                                    | None => match run_store kind args with
+                                              | Some r => r
+                                              | None => match run_valid kind args with
+                                                        | Some r => r
+                                                        | None => match run_handover kind args with
+                                                                  | Some r => r
+                                                                  | None => match run_fsim kind args with
+                                                                            | Some r => r
+                                                                            | None => match run_devmod kind args with Some r => r | None => s "unknown-kind"%bs end
+                                                                            end
+                                                                  end
+                                                        end
+                                              end
+                                    end
+                          end
                 end
               end
             end
